@@ -4,6 +4,7 @@
 mod rat;
 mod util;
 mod dynsrc;
+mod dynpipe;
 mod props;
 
 use std::collections::HashSet;
